@@ -29,7 +29,19 @@ class ExcelProjectIo(ProjectIoInterface):
         -------
             :class:`Parameters`
         """
-        df = pd.read_excel(file_name, na_values=["None", "none"])
+        # labels are text, whatever they look like ('1.10', 'true', 'none', ...)
+        header = pd.read_excel(file_name, nrows=0).columns
+        label_columns = [column for column in header if column.lower() == "label"]
+        df = pd.read_excel(
+            file_name,
+            dtype={column: str for column in label_columns},
+            keep_default_na=False,
+            na_values={
+                column: ["", "None", "none", "nan", "NaN"]
+                for column in header
+                if column not in label_columns
+            },
+        )
         df.columns = [column.lower() for column in df.columns]
         df = df.rename(columns=OPTION_NAMES_DESERIALIZED)
         safe_dataframe_fillna(df, "minimum", -np.inf)
